@@ -123,17 +123,22 @@ class DNAGenerator(symbolic.Object):
         returns False, otherwise it's a tuple of floats.
     """
     if self.needs_feedback:
-      if self.multi_objective and isinstance(reward, float):
-        reward = (reward,)
-      elif not self.multi_objective and isinstance(reward, tuple):
-        if len(reward) != 1:
-          raise ValueError(
-              f'{self!r} is single objective, but the reward {reward!r} '
-              f'contains multiple objectives.')
-        reward = reward[0]
-      self._feedback(dna, reward)
+      self._feedback(dna, self._normalized_reward(reward))
     with self._counter_lock:
       self._num_feedbacks += 1
+
+  def _normalized_reward(
+      self, reward: Union[float, Tuple[float]]) -> Union[float, Tuple[float]]:
+    """Returns the reward in the form that `_feedback` receives."""
+    if self.multi_objective and isinstance(reward, float):
+      reward = (reward,)
+    elif not self.multi_objective and isinstance(reward, tuple):
+      if len(reward) != 1:
+        raise ValueError(
+            f'{self!r} is single objective, but the reward {reward!r} '
+            f'contains multiple objectives.')
+      reward = reward[0]
+    return reward
 
   def _feedback(self, dna: DNA, reward: Union[float, Tuple[float]]) -> None:
     """Actual feedback method which should be implemented by the child class.
